@@ -30,23 +30,25 @@ def check_smooth(case):
     from traffic_weaver.process import spline_smooth
     x, y, s, entry = case["x"], case["y"], case["s"], case["entry"]
     key = {"entry": entry, "s_none": s is None, "s_zero": s == 0}
-    fx, fy = np.array(x, dtype=float), np.array(y, dtype=float)
-    kx, ky = fx.copy(), fy.copy()
+    ydt = case.get("y_dtype", "float64")
+    fx, fy_in = np.array(x, dtype=float), np.array(y, dtype=ydt)     # the caller's y may be integer-typed
+    fy = fy_in.astype(float)
+    kx, ky = fx.copy(), fy_in.copy()
     fails = []
     with warnings.catch_warnings(record=True) as wlist:
         warnings.simplefilter("always")
         try:
             if entry == "smooth":
-                wv = Weaver(fx, fy).smooth(s)
+                wv = Weaver(fx, fy_in).smooth(s)
                 gx, gy = wv.get()
             elif entry == "to_function":
-                wv = Weaver(fx, fy)
+                wv = Weaver(fx, fy_in)
                 f = wv.to_function() if s == 0 and case.get("default") else wv.to_function(s)
                 gx, gy = wv.get()[0], f(fx)
                 if [float(v) for v in wv.get()[1]] != [float(v) for v in y]:
                     fails.append(fail("to_function-changed-series", None, key))
             else:
-                gx, gy = fx, spline_smooth(fx, fy, s)(fx)
+                gx, gy = fx, spline_smooth(fx, fy_in, s)(fx)
         except Exception as e:  # noqa
             return [fail("raised", {"exception": repr(e)}, dict(key, exc=type(e).__name__))], None
     if any(issubclass(w.category, (RuntimeWarning, UserWarning)) for w in wlist):
@@ -55,7 +57,7 @@ def check_smooth(case):
     if [float(v) for v in gx] != [float(v) for v in x] or gy.shape != fy.shape:
         fails.append(fail("x-or-length-changed", {"x": gx, "len": gy.shape}, key))
         return fails, None
-    if not (A.same_bytes(fx, kx) and A.same_bytes(fy, ky)):
+    if not (A.same_bytes(fx, kx) and A.same_bytes(fy_in, ky)):
         fails.append(fail("caller-arrays-modified", None, key))
     sse = float(np.sum((gy - fy) ** 2))
     sc = max(1.0, float(np.max(np.abs(fy))))
@@ -69,7 +71,7 @@ def check_smooth(case):
     if s is None and entry in ("smooth", "function"):
         with warnings.catch_warnings(record=True) as w2:
             warnings.simplefilter("always")
-            alt = Weaver(fx.copy(), fy.copy()).smooth(s_eff).get()[1] if entry == "smooth" else spline_smooth(fx, fy, s_eff)(fx)
+            alt = Weaver(fx.copy(), fy_in.copy()).smooth(s_eff).get()[1] if entry == "smooth" else spline_smooth(fx, fy_in, s_eff)(fx)
         if not w2 and np.any(np.abs(np.asarray(alt) - gy) > 1e-9 * sc):
             fails.append(fail("default-s-is-not-len*var", {"observed": gy, "with_len*var": alt}, key))
     if entry == "to_function" and s == 0:
@@ -138,8 +140,13 @@ def harnesses(tier, seed):
         s = ctx.choose(SVALS, "s")
         x = [scale * v + 1 for v in g]
         nd = 0
-        for y, aff in yvecs(k, x):
-            c = {"x": x, "y": y, "s": s, "entry": entry, "affine": aff, "default": True}
+        cases = [(y, aff, "float64") for (y, aff) in yvecs(k, x)]
+        # integer-typed series of large magnitude (counts): same condition, s scaled with the magnitude squared
+        base = [v for (v, aff) in yvecs(k, x)[:: 9] if all(float(t) == int(t) for t in v)]
+        cases += [([int(t) * 300 for t in v], False, "int16") for v in base] + [([int(t) * 20000 for t in v], False, "int32") for v in base]
+        for y, aff, ydt in cases:
+            c = {"x": x, "y": y, "s": s if (ydt == "float64" or s is None) else s * (300.0 if ydt == "int16" else 20000.0) ** 2,
+                 "entry": entry, "affine": aff, "default": True, "y_dtype": ydt}
             c["kind"] = "smooth"
             fails, sig = check_smooth(c)
             ctx.call(1)
